@@ -77,8 +77,13 @@ def parseDecl (ps : Array ParInfo) (j : Json) : Except String Decl := do
     return .arr rows
   | "expr" => return .expr (← parseE ps (← getObj j "e"))
   | "arrexpr" => do
-    let es ← (← getArr j "elems").toList.mapM (parseE ps)
-    return .arrE es
+    match j.getObjVal? "rows" with
+    | .ok rows => do
+      let rs ← (← rows.getArr?).toList.mapM fun r => do (← r.getArr?).toList.mapM (parseE ps)
+      return .arrE rs
+    | .error _ => do
+      let es ← (← getArr j "elems").toList.mapM (parseE ps)
+      return .arrE (es.map fun e => [e])
   | "dm" => return .dm (← parseRat (← getObj j "v"))
   | "notlit" => do
     -- `not <literal>` is `ca.if_else(literal, 0, 1, True)`: the walk delivers a 1×1 DM, the same kind
